@@ -118,6 +118,9 @@ func zzH_C08seq() {
 			}
 		}
 		vAssert(cnt == 1, "probe-answered-once")
+		// whatever the peer sent, once it is gone the connection is torn down: ServeCodec has returned and
+		// every stream handler it started has been released
+		vAssert(vBlocked() == 0, "teardown-completes-after-any-frame-sequence")
 		vReach("end")
 	})
 }
